@@ -176,21 +176,53 @@ func sysProp(c Case, x *h.Ctx) *h.Violation {
 		}
 		return h.V("iofault/system/absorbed/"+target, "%s; the injected failure of %s fired, yet no operation returned an error and the process did not stop: the failure was absorbed\nchild output: %.600s", desc, where, out.String())
 	}
+	// Every acknowledged operation must be there. An operation that was in flight when the child stopped, or that
+	// returned an error, may or may not have taken effect (several can exist: strace counts writes per thread, and a
+	// broken log makes every later write fail), so per key the directory must show the last acknowledged operation on
+	// that key or one of the unacknowledged ones after it.
 	want := crash.ModelAfter(p, ops, acked)
 	d := crash.Diff(want, got)
 	if d != "" {
+		lastAck := map[string]int{}
+		for _, i := range acked {
+			if ops[i].Kind == "put" || ops[i].Kind == "delete" {
+				lastAck[string(p.KeyOf(ops[i].Step))] = i
+			}
+		}
+		allowed := map[string][]map[string][]byte{}
 		for i := range ops {
-			if called[i] && !ret[i] || (ret[i] && !okRet[i]) {
-				with := append(append([]int{}, acked...), i)
-				for j := len(with) - 1; j > 0 && with[j] < with[j-1]; j-- {
-					with[j], with[j-1] = with[j-1], with[j]
-				}
-				if crash.Diff(crash.ModelAfter(p, ops, with), got) == "" {
-					d = ""
+			if !(called[i] && !okRet[i]) || (ops[i].Kind != "put" && ops[i].Kind != "delete") {
+				continue
+			}
+			k := string(p.KeyOf(ops[i].Step))
+			if la, ok := lastAck[k]; ok && la > i {
+				continue
+			}
+			eff := crash.ModelAfter(p, ops, []int{i})
+			if ops[i].Kind == "put" && len(eff) == 0 {
+				continue // rejected by the API: no effect either way
+			}
+			allowed[k] = append(allowed[k], eff)
+		}
+		patched := map[string][]byte{}
+		for k, v := range want {
+			patched[k] = v
+		}
+		for k, effs := range allowed {
+			gv, gok := got[k]
+			for _, eff := range effs {
+				ev, eok := eff[k]
+				if eok == gok && string(ev) == string(gv) {
+					if eok {
+						patched[k] = ev
+					} else {
+						delete(patched, k)
+					}
 					break
 				}
 			}
 		}
+		d = crash.Diff(patched, got)
 	}
 	if d != "" {
 		return h.V("iofault/system/content/"+target, "%s; the directory afterwards does not hold the acknowledged operations (expected vs found: %s): an incomplete output was installed or acknowledged data was dropped\nchild output: %.600s", desc, d, out.String())
